@@ -323,4 +323,12 @@ def _destinations(chk, ctx) -> None:
         f = ctx.sfi(op)
         direct = {place(e.term) for p in ctx.paths(f) for e in p.writes() if place(e.term)}
         chk.ob('C06.destinations', f'State.{op}', not direct, f.loc, f'{op} moves cards only through _muck_hole_cards', got=sorted(direct))
-    chk.floor('C06.destinations', 5)
+    mk = ctx.sfi('_muck_hole_cards')
+    cleared = set()
+    for p in ctx.paths(mk):
+        for e in p.writes():
+            if e.op == 'call:clear' and unversion(e.term)[0] == 'sub' and unversion(e.term)[2] == ('name', 'player_index'):
+                cleared.add(T.root_self_attr(unversion(e.term)))
+    chk.ob('C06.destinations', 'State._muck_hole_cards:emptied', {'hole_cards', 'hole_card_statuses'} <= cleared, mk.loc,
+           'a mucked hand is emptied: its cards and their facings go together (the two per-player lists stay in step)', got=sorted(x for x in cleared if x))
+    chk.floor('C06.destinations', 6)
